@@ -593,6 +593,8 @@ def run_ride(unit, res):
     else:
         r = random.Random(f"C10/ride/{unit['seed']}/{unit['idx']}")
         cases = [gen_case(r) for _ in range(unit["n"])]
+        if "only" in unit:
+            cases = cases[unit["only"]:unit["only"] + 1]
     for prog, inputs, flags in cases:
         text, _toks = G.serialise(prog)
         from lib.monitors import frame
@@ -626,6 +628,12 @@ def run_ride(unit, res):
                     "frame_events": events[:4],
                     "unit": {"kind": "ride", "prog": prog, "inputs": inputs, "flags": flags},
                 })
+
+
+def split_unit(unit):
+    if unit.get("kind") == "ride" and "only" not in unit and "prog" not in unit:
+        return [dict(unit, only=j) for j in range(unit["n"])]
+    return None
 
 
 def run_unit(unit):
